@@ -4,6 +4,13 @@ PENDING = "not yet claimed in this revision: model/theorems under construction (
 NOT_APPLICABLE = {("C%02d" % i): PENDING for i in range(1, 21)}
 
 META = {
+    "C17": dict(
+        text="Kernel-checked panic-freedom of the panic-explicit model, for ALL arguments: checkAndAdjustP_no_panic (len()-1, buckets[i+1], last().unwrap(); uses the regenerated DEFAULT_BUCKETS != []), makeLabelPairsP_no_panic (label_values[i] in range; wrong cardinality is Err), "
+             "desc_value_lookup_no_panic (the unwrap on the const-label lookup in Desc::new), first_special_is_boundary / escapeSliceP_no_panic (the byte index escape_string slices at is a UTF-8 character boundary whatever multi-byte characters precede it), "
+             "encode_no_panic / encode_err_iff (both encoders, every MetricType, failing writers; Err exactly for a family without samples or name, or UNTYPED in text). "
+             "Tie: argument sweeps of every listed Result-returning API of the real crate under catch_unwind vs the model's outcome class; oracle: no call panics.",
+        note="The P-model is hand-written from the source's partial operations (listed in DESIGN 5/C17); a partial operation added by a code change is caught by the sweep, not by the theorem. register/unregister are swept by the reg area.",
+    ),
     "C18": dict(
         text="Kernel-checked, by induction over ANY operation list over any number of shared and local timers: timer_contribution (observations in the histogram + pending in the parent local = timers ended by record/observe/drop + closures + plain parent observations; discarded and running timers contribute nothing), "
              "record_contributes_one / discard_contributes_nothing / drop_contributes_one, ended_timer_inert, parent_untouched (a local timer records into a private cleared clone, flushed on drop). "
